@@ -107,6 +107,9 @@ def case_strategy(draw):
     else:
         first = {"kind": draw(first_kinds), "ser": draw(sers), "ser_id": draw(bad_ser_ids), "shape": draw(shapes), "object": draw(objects),
                  "mal": draw(mals), "flags": draw(st.sampled_from([0, 0, 0, 64, 1, 4, 8, 16, 32, 0xfffd & ~2])), "seq": draw(st.sampled_from([0, 0, 1, 7, 65535]))}
+    if first["shape"] == "extra-keys":
+        first["xkey"] = draw(st.sampled_from(["extra", "meta", "meta", "metadata", "reconnect", "flags", "serializer", "annotations", "oneway", "validated"]))
+        first["xval"] = draw(st.sampled_from([1, False, False, True, None, "", 0]))
     vmode = draw(st.sampled_from(["accept", "accept", "accept", "return", "return-unserialisable", "raise", "raise"]))
     validator = {"mode": vmode}
     if vmode == "return":
@@ -153,7 +156,8 @@ def build_first(first):
         "none": None,
         "nested": {"handshake": {"a": [1, {"b": 2}]}, "object": obj},
         "int": 5,
-        "extra-keys": {"handshake": "hello", "object": obj, "extra": 1},
+        # members a peer may add on its own (named after things the protocol knows: the daemon owes them nothing)
+        "extra-keys": {"handshake": "hello", "object": obj, first.get("xkey", "extra"): first.get("xval", 1)},
     }[shape]
     mtype = {"connect": wire.CONNECT, "invoke": wire.INVOKE, "ping": wire.PING, "result": wire.RESULT, "connectok": wire.CONNECTOK,
              "connectfail": wire.CONNECTFAIL, "type0": 0, "type7": 7, "type255": 255}[kind]
@@ -373,7 +377,8 @@ def run_case(case, variant=None, keep=False):
                 if case["pipeline"] and peer.reset_seen and not msgs:
                     pass        # reset swallowed the reply (tolerated only with pipelined bytes)
                 else:
-                    feat = "validator-raises-" + val["exc"] if (val["mode"] == "raise" and wellformed and variant != "thread-poolfull") else "first-message"
+                    consulted_ = validated_after > validated_before
+                    feat = "validator-raises-" + val["exc"] if (val["mode"] == "raise" and (wellformed or consulted_) and variant != "thread-poolfull") else "first-message"
                     if stalled:
                         feat = "stalled-first-message"
                     viol("no-connectfail:" + feat, "no CONNECTFAIL as first reply (%s): got types %r, ended %r" % (_why(first, val, variant, wellformed), types, ended))
